@@ -326,6 +326,21 @@ theorem generated_positions_shape_ok :
       "ParseError.new:highlight=highlight", "ParseError.new:line=token.line", "ParseError.new:start_context=start_context",
       "expression: if token: instance.update_positions(token)"] := by decide
 
+/-- STRUCTURE FACT (ast table of call sites, re-read on each run): every override / wrapper of parse, parse_into, _parse in
+    parser.py, parsers/*.py, dialects/*.py and sqlglot/__init__.py hands the statement text `sql` on to its delegate — the premise
+    "parser.sql is the text the tokens were lexed from" of `raise_error_on_lexed_token` at every entry point -/
+theorem parser_delegates_pass_sql : parserDelegates.all (fun r => r.2.2) = true ∧ parserDelegates ≠ [] := by decide
+
+/-- WITNESS for the dropped-argument variant (a delegate called without `sql`, so the sub-parser runs with self.sql == ""):
+    the error keeps the token's line/col but highlight and both contexts are empty — the reported position selects nothing -/
+theorem raise_error_dropped_sql_witness (t : Tok) (curr prev : Option Tok) (ctx : Nat) (h : t.start ≤ t.stop) :
+    (raiseError [] (some t) curr prev ctx).line = t.line ∧ (raiseError [] (some t) curr prev ctx).col = t.col ∧
+    (raiseError [] (some t) curr prev ctx).highlight = [] ∧ (raiseError [] (some t) curr prev ctx).startCtx = [] ∧
+    (raiseError [] (some t) curr prev ctx).endCtx = [] := by
+  simp only [raiseError, chooseTok]
+  rw [highlight_single [] t.start t.stop ctx h]
+  simp [pySlice]
+
 /-! ### non-vacuity and witnesses (complete evaluations of the model on concrete inputs, `decide +kernel`) -/
 
 /-- the hypotheses of `highlight_selects` are satisfiable and the result is the expected lexeme -/
